@@ -44,7 +44,10 @@ class RngCtl:
     def _q(self):
         m = self.qmode
         if m == "mixed":
-            m = self.rnd.choice(["dyadic", "dyadic", "random", "end", "half"])
+            m = self.rnd.choice(["dyadic", "dyadic", "random", "end", "half", "tiny"])
+        if m == "tiny":         # a cut very close to, but not on, an end of the range
+            e = 2.0 ** -self.rnd.randint(14, 45)
+            return self.rnd.choice([e, e, 1.0 - e])
         if m == "half":
             return 0.5
         if m == "end":
@@ -232,7 +235,7 @@ def dump_part(part, st_str=lambda nd: ""):
 
 # ---------------------------------------------------------------- boxes
 def gen_box(rnd, d, mode=None):
-    mode = mode or rnd.choice(["unit", "shift", "neg", "scale", "pow2", "arb", "pow2"])
+    mode = mode or rnd.choice(["unit", "shift", "neg", "scale", "pow2", "arb", "pow2", "tiny", "zeroedge"])
     box = []
     for _ in range(d):
         if mode == "unit":
@@ -243,6 +246,10 @@ def gen_box(rnd, d, mode=None):
             hi = -float(rnd.randint(1, 20)); lo = hi - rnd.choice([1.0, 4.0, 0.25])
         elif mode == "scale":
             s = 10.0 ** rnd.randint(-6, 6); lo, hi = -s * rnd.random(), s * (0.1 + rnd.random())
+        elif mode == "tiny":
+            s = 10.0 ** rnd.randint(-12, -7); lo = s * rnd.choice([0.0, -1.0, 1.0, -rnd.random(), rnd.random()]); hi = lo + s * (0.5 + rnd.random())
+        elif mode == "zeroedge":
+            w = rnd.choice([1.0, 2.0, 3.0, 0.5, 10.0]); lo, hi = rnd.choice([(0.0, w), (-w, 0.0), (-w, w), (-w, 2 * w)])
         elif mode == "pow2":
             e = rnd.randint(-4, 6); a = float(rnd.randint(-8, 8)) * 2.0 ** e
             lo, hi = a, a + 2.0 ** rnd.randint(e, e + 4)
